@@ -5,8 +5,47 @@ PROP = dict(
     go_tags=["c27"],
     lean_modules=["MM.Props.C27"],
     theorems=[
+        "MM.C27.C27_statement",
+        "MM.C27.C27_inv_preserved",
         "MM.C27.C27_unchecked_refuted",
+        "MM.C27.safe_untar",
+        "MM.C27.check_sound",
+        "MM.C27.walkAux_lex",
     ],
     spec=True,
     chunk=6000,
+    timeout=1800,
+    rule="cases = sandbox with an outside sentinel tree (files, directories) next to the destination w/d, optional state left at the "
+         "destination by earlier activity (directories, files, symbolic links incl. escaping / absolute / dangling / self-referential ones, hard "
+         "links), then 1-3 archives in a row, each 1-8 entries drawn from names {a, a/b, a/b/c, a/b/c/x, b, x, ., a/.., ../x, /abs, ...} x types "
+         "{dir, regular, symlink, hard link, fifo} x link targets {.., ../.., b, ../x, ../../out/secret, c/.., ...}; plus large inputs (300-entry "
+         "archives, bodies of 32 KiB-1 MiB, 255-byte components, deep chains) and an exhaustive enumeration of 2-entry (thorough: a 12% sample of "
+         "3-entry) archives over a 5-name x 4-target alphabet; every archive is written with archive/tar + gzip and extracted by the real "
+         "UntarDirectory; the full listing of the sandbox (kinds, link targets, contents, inode sharing) is compared with the Lean model; "
+         "non-trivial = the archive was not refused at its first entry",
+    nontrivial=lambda op, out: op.startswith("untar") and ("w/d/" in out),
+    trusted_base=[
+        "the filesystem (path resolution with symbolic links, mkdir/open/unlink/rmdir/symlink/link, os.MkdirAll, os.Remove) is MODELLED in "
+        "MM/Model/C27.lean and validated against the real OS by the correspondence run only",
+        "archive/tar + compress/gzip readers are trusted; only well-formed archives are generated",
+        "component names are abstracted to numbers ('.' and empty components dropped, '..' distinguished); filepath.Clean/Join/Rel on them is modelled",
+    ],
+    assumptions=[
+        "hypothesis Inv of C27_statement: the filesystem is a tree; the destination exists and neither it nor an ancestor is a symbolic link; "
+        "no inode is hard-linked both below the destination and outside it; (symbolic links of any shape may pre-exist anywhere)",
+        "no other process changes the tree during the extraction",
+        "running as root in the sandbox: permission errors are not modelled",
+    ],
+    manifest=dict(
+        category="proof",
+        text="Lean theorem C27_statement: for ALL archives (any sequence of directory / regular / symlink / hard-link / other entries with arbitrary "
+             "names and targets), every initial filesystem satisfying Inv (tree; destination physically a directory; no inode shared across the "
+             "boundary) and every symlink-follow budget, extraction with the repaired UntarDirectory leaves every path not strictly below the "
+             "destination resolving to the same entry and every outside file with the same content, and the destination stays a directory. "
+             "C27_unchecked_refuted shows the lexical checks alone (code before fixes/C27-untar-symlink-components.patch) do not give this. The "
+             "filesystem + UntarDirectory model is tied to the code by a differential run of the real function on generated archives",
+        design_ref="DESIGN.md section 5 C27",
+        note="Lean kernel; OS filesystem semantics modelled, not verified (T-diff only); Inv hypothesis; generator coverage",
+        technique="Lean 4 proof (invariant over the entry loop; lexical-resolution lemma for symlink-free prefixes) + differential correspondence harness on real directories",
+    ),
 )
